@@ -118,6 +118,59 @@ def _run_main(ctx):
                         {"site": "NIRGraph", "after": f["after"], "attr": f["defects"][0][1]}, observed=found[:3])
         if all(o in ("infer", "check") for o in ops):
             cases.append(case); obs.append({"steps": steps}); reqs.append(case)
+    # inference that derives degenerate extents (a window larger than the padded input: zero or negative sizes are
+    # what the arithmetic yields, and they reach the Outputs like any other shape) - the mirror holds all the same
+    import numpy as np
+    import nir
+    from core import quiet
+    for _ in range(ctx.n(30, 150)):
+        n = rng.randrange(2, 6); k = n + rng.randrange(0, 5); st = rng.randrange(1, 3); c = rng.randrange(1, 4)
+        kind = rng.choice(["SumPool2d", "AvgPool2d", "Conv2d"])
+        if kind == "Conv2d":
+            x = nir.Conv2d(None, np.zeros((2, c, k, k)), st, 0, 1, 1, np.zeros(2))
+        else:
+            x = getattr(nir, kind)(k, st, 0)
+        case = {"op": "degenerate_extent", "kind": kind, "input": [c, n, n], "kernel": k, "stride": st}
+        ctx.case(case); ctx.count("degenerate_extent_histories")
+        try:
+            g = nir.NIRGraph(nodes={"in": nir.Input(np.array([c, n, n])), "x": x, "out_a": nir.Output(None),
+                                    "out_b": nir.Output(np.array([3, 1]))},
+                             edges=[("in", "x"), ("x", "out_a"), ("x", "out_b")])
+        except Exception:
+            ctx.count("construct_rejected"); continue
+        raised = None
+        try:
+            with quiet():
+                g.infer_types()
+        except Exception as e:  # noqa
+            raised = type(e).__name__
+        d = mirror_defects(g)
+        if d:
+            ctx.violate(case, "graph-level interface does not mirror the Input/Output children",
+                        {"site": "NIRGraph", "after": "infer", "attr": d[0][1], "family": "degenerate-extent"},
+                        observed={"raised": raised, "defects": d})
+    # a graph used as a node: as the first / last element of from_list its graph-level types are what the automatic
+    # Input / Output is built from - the inner graph goes on mirroring its own children afterwards
+    for _ in range(ctx.n(30, 150)):
+        sh = gen.shape(rng, rank=rng.randrange(1, 3), hi=5)
+        mk = lambda: nir.Scale(np.ones(sh) * rng.randrange(1, 5))
+        pos = rng.choice(["first", "last", "only", "middle"])
+        case = {"op": "nested_in_from_list", "shape": sh, "position": pos}
+        ctx.case(case); ctx.count("nested_in_from_list")
+        try:
+            inner = nir.NIRGraph.from_list(mk(), mk()) if rng.random() < 0.6 else nir.NIRGraph(
+                nodes={"input": nir.Input(np.array(sh)), "s": mk(), "output": nir.Output(np.array(sh))},
+                edges=[("input", "s"), ("s", "output")])
+            seq = {"first": [inner, mk()], "last": [mk(), inner], "only": [inner], "middle": [mk(), inner, mk()]}[pos]
+            outer = nir.NIRGraph.from_list(*seq)
+        except Exception as e:  # noqa
+            ctx.violate(case, "from_list raised on a sequence holding a graph", {"site": "from_list", "what": "raised"},
+                        observed=f"{type(e).__name__}: {e}"); continue
+        d = mirror_defects(outer) + [("inner",) + x for x in mirror_defects(inner)]
+        if d:
+            ctx.violate(case, "graph-level interface does not mirror the Input/Output children",
+                        {"site": "NIRGraph", "after": "from_list", "attr": d[0][-1], "family": "nested-in-from_list"},
+                        observed=[list(x) for x in d[:4]])
     ctx.compare("graphs", cases, obs, reqs)
 
 
